@@ -13,7 +13,12 @@ import (
 	"net/http"
 	"net/textproto"
 	"strings"
+	"time"
 )
+
+// HandshakeTimeout bounds the whole client side negotiation (protocol version, upgrade, StartTLS): a peer
+// that accepts the connection and never answers must not hold the client for ever.
+var HandshakeTimeout = 30 * time.Second
 
 // ClientConnection represents a client to the socketace server. It announces the client to the server,
 // checks the server and establishes the connection.
@@ -42,8 +47,13 @@ func NewClientConnection(c net.Conn, manager cert.TlsConfig, secure bool, host s
 		connection.securityTech = SecurityNone
 	}
 
+	if err := c.SetDeadline(time.Now().Add(HandshakeTimeout)); err != nil {
+		log.WithError(err).Debugf("[Client] This connection takes no deadline: %v", err)
+	}
+
 	log.Debugf("[Client] SocketAce handshake...")
 	if err := connection.handshake(conn); err != nil {
+		streams.TryClose(c)
 		return nil, errors.Wrapf(err, "Could not negotiate protocol version: %v", err)
 	}
 
@@ -51,10 +61,12 @@ func NewClientConnection(c net.Conn, manager cert.TlsConfig, secure bool, host s
 
 	log.Debugf("[Client] SocketAce upgrade...")
 	if client, err := connection.upgrade(conn, shouldStartTls, secure); err != nil {
+		streams.TryClose(c)
 		return nil, errors.Wrapf(err, "Could not upgrade connection: %v", err)
 	} else {
 		connection.Connection = client
 	}
+	_ = c.SetDeadline(time.Time{})
 
 	return connection, nil
 }
